@@ -3,8 +3,8 @@ import itertools, random, socket, struct
 from vlib import core, corr
 
 AREA = "C10"
-MODULES = ["TinsModel.Props.C10"]
-AUDIT = "Audit/C10.lean"
+MODULES = ["TinsModel.Props.C10", "TinsModel.Props.Limits.C10"]   # + the constants / limits tied to the source (translator/gen_limits.py)
+AUDIT = ["Audit/C10.lean", "Audit/LimitsC10.lean"]
 LEVEL = "proof"
 HARNESS = "c10_dns"
 HARNESS_FLAGS = ["-fno-access-control"]          # the harness prints records_data_ and the three section offsets
@@ -25,6 +25,10 @@ MANIFEST = dict(
     technique="Lean 4 proof (representation invariant + refinement over edit histories, fault-explicit safety) "
               "+ model/impl correspondence + spec oracle",
     design="DESIGN.md §6 C10")
+MANIFEST["note"] += (" Constants and limits of the C++ source that the model restates (translator/gen_limits.py -> Gen/Limits.lean: "
+                     "compiled probe + preprocessed function bodies at named anchors) are tied to the model's numerals by the "
+                     "theorems of lean/TinsModel/Props/Limits/C10.lean (audit: Audit/LimitsC10.lean); tools/LIMITS-INVENTORY.md lists "
+                     "what is tied and what is not.")
 
 T_A, T_NS, T_CNAME, T_SOA, T_PTR, T_MX, T_TXT, T_AAAA, T_SRV, T_DNAM, T_OPT = 1, 2, 5, 6, 12, 15, 16, 28, 33, 39, 41
 NAME_TYPES = (T_NS, T_CNAME, T_PTR, T_DNAM)
@@ -652,7 +656,12 @@ def build():
 
 
 def run(chk):
+    from translator import gen_limits
+    gen_limits.main([])          # Gen/Limits.lean: constants and limits read from the current source
+    chk.trusted.append("translator/gen_limits.py (constants / limits of the source -> Gen/Limits.lean: compiled probe + "
+                       "preprocessed function bodies at named anchors; tied to the model numerals by Props/Limits/C10.lean)")
     problems = chk.prove(MODULES, AUDIT, want_leanchecker=(chk.tier == "thorough"))
+    problems = gen_limits.name_failures(chk, problems, "C10")   # name the tie theorems that fail
     exe, err = build()
     if exe is None:
         chk.violation("implementation does not build: " + (err or "")[-1500:], ["build-error"], nofail=True)
@@ -677,7 +686,11 @@ def run(chk):
     go(malformed_cases(rng))
     go(soa_cases(rng, quick))
     go(label_count_cases())
-    go([chain_case(rng, d) for d in (2, 5, 31, 32, 33, 40)])
+    # pointer chains around the documented cap (31 jumps resolved, the 32nd is a loop) and around the cap the source
+    # currently has (Gen/Limits: `pointer_counter++ > CAP`), so a changed cap is crossed on either side
+    cap = gen_limits.values().get("dnsPointerJumpCap")
+    depths = {2, 5, 31, 32, 33, 40} | ({cap, cap + 1, cap + 2, cap + 3} if cap is not None and cap < 2000 else set())
+    go([chain_case(rng, d) for d in sorted(depths)])
     go([realistic_case(rng) for _ in range(300 if quick else 3000)])
     go(exhaustive_cases(rng, 2, 10**9) + (exhaustive_cases(rng, 3, 10**9) if not quick else []))
     # seeded random histories
